@@ -196,6 +196,59 @@ def check_C02(ctx):
                        extra=uci_glue_extra('C02'), assumptions=['Spec.wf positions', 'half-move clock < 65535 (uint16_t after the clock fix)'])
 
 
+def eval_after_undo_extra(ctx):
+    """C03 through the evaluator: anything derived from the position (the static evaluation reads the piece lists, the bitboards,
+    the keys of the pawn cache …) must be the same again after a move has been made and unmade — also when the internal order of a
+    piece list is the only thing that could differ.  Lab positions, every legal move done and undone, `eval` by a fresh evaluator
+    before and after; judged on the implementation alone."""
+    text = V.lean_gen(ctx.drv, ['lab', ctx.seed * 1000 + 313, 80 if ctx.tier == 'quick' else 1500])
+    ops = []
+    for l in text.splitlines():
+        if l.startswith('pos '):
+            ops.append(l); ops.append('eval')
+        elif l.startswith(('do ', 'undo', 'null', 'unnull', 'ztab')):
+            ops.append(l)
+            if l.startswith(('undo', 'unnull')):
+                ops.append('eval')
+    # chunk at `pos` boundaries
+    chunks, cur = [], []
+    for l in ops:
+        if l.startswith('pos ') and len(cur) > 400:
+            chunks.append('\n'.join(cur) + '\n'); cur = []
+        cur.append(l)
+    if cur:
+        chunks.append('\n'.join(cur) + '\n')
+    from concurrent.futures import ThreadPoolExecutor
+
+    def work(t):
+        return t, V.run_cpp(ctx.exe, t)
+    nbad = 0
+    with ThreadPoolExecutor(max_workers=NPROC) as ex:
+        for t, (rc, C, err) in ex.map(work, chunks):
+            tl = t.splitlines()
+            depth, root, start = 0, None, 0
+            for i, op in enumerate(tl):
+                if i >= len(C):
+                    break
+                if op.startswith('pos '):
+                    depth, root, start = 0, None, i
+                elif op.startswith(('do ', 'null')):
+                    depth += 1
+                elif op.startswith(('undo', 'unnull')):
+                    depth -= 1
+                elif op == 'eval' and C[i].startswith('eval'):
+                    ctx.cov['evaluations'] += 1
+                    ctx.count('eval_before_after_undo')
+                    if depth == 0:
+                        if root is None:
+                            root = C[i]
+                        elif C[i] != root and nbad < 2:
+                            nbad += 1
+                            V.report_violation(ctx, f'the static evaluation of the same position is {root} before a move is made and unmade and {C[i]} afterwards',
+                                               '\n'.join(tl[start:i + 1]) + f'\n# before: {root}\n# after : {C[i]}\n', True, ident='evalundo ' + tl[start])
+                            root = C[i]
+
+
 def check_C03(ctx):
     allf = ['fen', 'key', 'pkey', 'chk', 'mate', 'stale', 'rep', 'three', 'r50', 'mat', 'draw', 'poly', 'hist', 'sync']
     base = state_fields(allf)
@@ -204,8 +257,9 @@ def check_C03(ctx):
     mvs = moves_fields(['uci', 'code', 'cqk'])
     return play_family(ctx, 'observables after unmake', V.proj_any(base, mv), V.proj_any(bases, mvs), SZ,
                        'theorems in Props/C03.lean + three-way differential on every observable after every undo (the spec side restores a saved '
-                       'snapshot, so agreement means the implementation restored everything), nested excursions up to depth 4 (quick)',
-                       extra=perft_extra(2, 3), assumptions=['Spec.wf positions'])
+                       'snapshot, so agreement means the implementation restored everything), nested excursions up to depth 4 (quick); plus the static '
+                       'evaluation (which reads piece lists, bitboards and cache keys) before and after every make/unmake excursion of the lab positions',
+                       extra=lambda c: (perft_extra(2, 3)(c), eval_after_undo_extra(c)), assumptions=['Spec.wf positions'])
 
 
 def real_tables_extra(ctx):
@@ -555,6 +609,86 @@ def wf_filter(ctx, fens):
     return out
 
 
+def structured_endgames(rng, n):
+    """positions built to reach the special-case branches of the endgame evaluators, which uniform random placements almost never hit:
+    bishop + two pawns on adjacent files v bishop with the defending king and bishop on / aimed at the blockade squares (KBPsKB),
+    rook-pawn + wrong bishop with the defending king near the corner (KBPsK / KPsK), queen v pawn on the seventh (KQKP), rook v pawn
+    races (KRKP).  White is the stronger side; callers add the colour mirror."""
+    def fen_of(pl):
+        rows = []
+        for r in range(7, -1, -1):
+            row, run = '', 0
+            for f in range(8):
+                ch = pl.get(r * 8 + f)
+                if ch:
+                    row += (str(run) if run else '') + ch; run = 0
+                else:
+                    run += 1
+            rows.append(row + (str(run) if run else ''))
+        return '/'.join(rows)
+    out = []
+    tries = 0
+    while len(out) < n and tries < n * 40:
+        tries += 1
+        kind = rng.choice(['kbpkb', 'kbpkb', 'kbpkb', 'wrongbishop', 'kqkp', 'krkp'])
+        pl = {}
+        if kind == 'kbpkb':
+            f1 = rng.randrange(8); f2 = f1 + rng.choice([-1, 1])
+            if not 0 <= f2 < 8:
+                continue
+            r1 = rng.randrange(2, 6); r2 = rng.randrange(1, r1)
+            p1, p2 = r1 * 8 + f1, r2 * 8 + f2
+            pl[p1] = 'P'; pl[p2] = 'P'
+            block1, block2 = (r1 + 1) * 8 + f1, r1 * 8 + f2
+            same = [s for s in range(64) if (s // 8 + s % 8) % 2 == (r1 + f1) % 2 and s not in pl and s not in (block1, block2)]
+            other = [s for s in range(64) if (s // 8 + s % 8) % 2 != (r1 + f1) % 2 and s not in pl]
+            sb = rng.choice(same if rng.random() < 0.8 else other)
+            pl[sb] = 'B'
+            kb, tb = (block1, block2) if rng.random() < 0.5 else (block2, block1)
+            if rng.random() < 0.8:
+                pl[kb] = 'k'
+                diag = [s for s in range(64) if s not in pl and s != tb and abs(s // 8 - tb // 8) == abs(s % 8 - tb % 8)]
+                if not diag:
+                    continue
+                pl[rng.choice(diag) if rng.random() < 0.8 else tb] = 'b'
+            else:
+                free = [s for s in range(64) if s not in pl]
+                pl[rng.choice(free)] = 'k'
+                free = [s for s in range(64) if s not in pl]
+                pl[rng.choice(free)] = 'b'
+        elif kind == 'wrongbishop':
+            f = rng.choice([0, 7])
+            for _ in range(rng.randrange(1, 3)):
+                pl[rng.randrange(1, 7) * 8 + f] = 'P'
+            if rng.random() < 0.7:
+                free = [s for s in range(64) if s not in pl]
+                pl[rng.choice(free)] = 'B'
+            corner = 56 + f
+            near = [s for s in (corner, corner - 8, corner + (1 if f == 0 else -1), corner - 8 + (1 if f == 0 else -1), rng.randrange(64)) if 0 <= s < 64 and s not in pl]
+            if not near:
+                continue
+            pl[rng.choice(near)] = 'k'
+        elif kind == 'kqkp':
+            f = rng.randrange(8)
+            pl[8 + f if rng.random() < 0.8 else 16 + f] = 'p'
+            free = [s for s in range(64) if s not in pl]
+            pl[rng.choice(free)] = 'Q'
+            near = [s for s in range(24) if s not in pl and abs(s % 8 - f) <= 1]
+            pl[rng.choice(near) if near and rng.random() < 0.8 else rng.choice([s for s in range(64) if s not in pl])] = 'k'
+        else:
+            f = rng.randrange(8)
+            pl[rng.randrange(1, 5) * 8 + f] = 'p'
+            for ch in 'Rk':
+                free = [s for s in range(64) if s not in pl]
+                pl[rng.choice(free)] = ch
+        free = [s for s in range(64) if s not in pl]
+        pl[rng.choice(free)] = 'K'
+        if sum(1 for v in pl.values() if v == 'k') != 1:
+            continue
+        out.append(fen_of(pl) + ' ' + rng.choice('wb') + ' - - 0 1')
+    return out + [mirror_fen(f) for f in out]
+
+
 def eval_positions(ctx, rng, nplay, nlab, per_class):
     fens = set(corpus_fens())
     text = V.lean_gen(ctx.drv, ['lab', ctx.seed * 1000 + 555, nlab])
@@ -566,7 +700,7 @@ def eval_positions(ctx, rng, nplay, nlab, per_class):
         for l in C[::3]:
             if l.startswith('fen='):
                 fens.add(V.parse_state(l)['fen'])
-    eg = wf_filter(ctx, random_placements(rng, ENDGAME_CLASSES, per_class))
+    eg = wf_filter(ctx, random_placements(rng, ENDGAME_CLASSES, per_class) + (structured_endgames(rng, 6 * per_class) if per_class else []))
     return sorted(fens), eg
 
 
@@ -624,7 +758,7 @@ def check_C13(ctx):
     allf = fens + eg
     per = max(1, len(allf) // (NPROC * 2))
     texts = ['ztab 9\n' + ''.join(f'pos {f}\neval\npos {mirror_fen(f)}\neval\n' for f in allf[i:i + per]) for i in range(0, len(allf), per)]
-    ctx.cov['rule'] = (f'{len(fens)} positions from the corpus, the lab and spec-generated games plus {len(eg)} random placements of every specialised endgame material class (both colours, '
+    ctx.cov['rule'] = (f'{len(fens)} positions from the corpus, the lab and spec-generated games plus {len(eg)} random placements of every specialised endgame material class plus constructed positions for their special-case branches (KBPsKB blockades, wrong-bishop rook pawns, KQKP, KRKP; both colours, '
                        'Spec.wf-filtered), each evaluated together with its mirror image (ranks flipped, colours/rights/ep/side swapped) by a fresh evaluator, and warm sessions through ONE evaluator (a position, a same-pawn-structure variant with a king or piece relocated, then the variant\'s mirror); model vs C++ on every value, '
                        'and the property eval(p) == eval(mirror p) on the C++ outputs whenever enough_material holds')
     md, sd = V.three_way(ctx, texts, lambda l, s: l if l.startswith('eval ') else None, 'static evaluation', spec_proj=lambda l, s: None)
@@ -976,7 +1110,7 @@ def check_C20(ctx):
     texts = ['\n'.join(lines[i:i + per]) + '\n' for i in range(0, len(lines), per)]
     ctx.cov['rule'] = ('grid of boundary values (0,1,2,...,24h) x increments x movestogo x ply plus random interior points, each paired with (left + k) for the monotonicity '
                        'test; C++ calculateTime vs the Lean model instantiated with IEEE doubles (equality of the integer results); the property itself is evaluated on '
-                       'the C++ outputs: 0 <= t, 10 t <= 7 left, t(left) <= t(left + k)')
+                       'the C++ outputs: 0 <= t, 10 t <= 7 left, t(left) <= t(left + k); plus `go` sessions with clocks, increments and movestogo over the real UCI loop (time until bestmove <= 70 % of the mover\'s clock + allowance)')
     md, sd = V.three_way(ctx, texts, line_proj(('time',)), 'time allocation',
                          spec_proj=lambda l, side: l.rsplit(' t=', 1)[0] if l.startswith('time') else None)
     # the property, directly on the implementation's outputs
@@ -1001,6 +1135,30 @@ def check_C20(ctx):
     if bad:
         why, v = bad
         V.report_violation(ctx, 'time allocation: ' + why, f'time {v[0]} {v[1]} {v[2]} {v[3]} 0\n# {why}\n', True, ident=why)
+    # the same bound at the protocol level: what `go wtime … winc … movestogo …` makes of the clock before the time manager sees it.
+    # The search stops when its allotment is used up, so the wall time until `bestmove` bounds the allotment from below: it must stay
+    # within 70 % of the mover's clock (plus a generous scheduling allowance) whatever the increment and the other side's clock are
+    import uci_glue
+    sess = [('startpos', 'go wtime 1000 btime 1000 winc 10000 binc 10000', 1000), ('startpos', 'go wtime 1500 btime 90000 winc 0 binc 30000', 1500),
+            ('startpos moves e2e4', 'go wtime 90000 btime 1200 winc 30000 binc 5000', 1200), ('startpos', 'go wtime 2000 btime 2000 movestogo 1', 2000),
+            ('startpos moves e2e4', 'go wtime 60000 btime 800 movestogo 1', 800), ('startpos', 'go wtime 900 btime 900 winc 900 binc 900 movestogo 40', 900)]
+    from concurrent.futures import ThreadPoolExecutor
+
+    def usess(j):
+        posn, go, clock = j
+        res, dead, stderr = uci_glue.run_script(ctx.exe, [f'position {posn}', go])
+        return j, res, dead
+    allowance = 1.5
+    with ThreadPoolExecutor(max_workers=3) as ex:
+        for (posn, go, clock), res, dead in ex.map(usess, sess):
+            ctx.cov['evaluations'] += 1
+            ctx.count('uci_clock_sessions')
+            el = res[1][2] if len(res) > 1 else None
+            if dead or el is None:
+                V.report_violation(ctx, f'`{go}` was not answered: {dead}', f'position {posn}\n{go}\n', True, ident='c20 uci ' + go)
+            elif el > 0.7 * clock / 1000.0 + allowance:
+                V.report_violation(ctx, f'`{go}`: bestmove came after {el:.2f} s with {clock} ms on the mover\'s clock (70 % = {0.7 * clock / 1000:.2f} s, allowance {allowance} s): the allotment exceeds the bound',
+                                   f'position {posn}\n{go}\n# bestmove after {el:.2f} s\n', True, ident='c20 uci ' + go)
     hunt_if_needed(ctx, ok, 'time allocation', lambda: None)
     uci_glue_extra('C20')(ctx)
     return V.finish(ctx, 'proof', thm('C20'),
@@ -1391,6 +1549,12 @@ def check_C08(ctx):
         for _ in range(2):
             ops += [f'go nodes {rng.choice([150, 400, 1000, 2500, 5000])}', f'go depth {rng.randrange(1, 3)}']
         texts.append('\n'.join(ops) + '\n')
+    # back-rank threats where the side that is a queen down after a capture can only be saved by a QUIET move (making luft, stepping
+    # aside): pruning of quiet moves at the frontier must not turn "all searched replies get mated" into a mate announcement
+    quietsave = ['6k1/5ppp/5n2/3q4/3Q4/8/5PPP/4R1K1 w - - 0 1', '6k1/5ppp/5n2/3r4/3Q4/8/5PPP/4R1K1 w - - 0 1', '6k1/5ppp/5b2/3q4/3Q4/8/5PPP/3R2K1 w - - 0 1',
+                 '5rk1/5ppp/8/3q4/3Q4/8/5PPP/3RR1K1 w - - 0 1', '2r3k1/5ppp/8/8/3n4/4B3/5PPP/2R3K1 w - - 0 1']
+    for fen in quietsave + [mirror_fen(f) for f in quietsave]:
+        texts.append(f'newgame\npos {fen}\n' + ''.join(f'go depth {d}\n' for d in (1, 2, 3, 4)))
     # an army against a bare king: the static evaluation is huge, but only a forced mate may be announced as one
     for fen in ['8/4k3/2P5/8/8/6Q1/2P5/RNBQKBNR w - - 0 1', '8/8/8/7k/8/QQQ5/QQQ5/QQQ4K w - - 0 1', '7k/8/8/8/8/RRRR4/RRRR4/RR5K w - - 0 1']:
         for f in (fen, mirror_fen(fen)):
